@@ -90,6 +90,27 @@ def programs():
     P['publish_join'] = C['publish_join']
     P['retry1'] = direct({'a': T(retry={'count': 1, 'delay': 0},
                                  **{'on-success': ['b']}), 'b': T()})
+    # pause while a retry delay / a wait is pending, during with-items, and
+    # around a sub-workflow (pause of the parent and of the child)
+    P['retry_delay'] = direct({'a': T(retry={'count': 1, 'delay': 1},
+                                      **{'on-success': ['b']}), 'b': T()})
+    P['wait_before'] = direct({'a': T(**{'on-success': ['b']}),
+                               'b': T(**{'wait-before': 1})})
+    P['wait_after'] = direct({'a': T(**{'wait-after': 1,
+                                        'on-success': ['b']}), 'b': T()})
+    P['items2'] = direct(
+        {'a': {'with-items': 'i in <% $.xs %>', 'on-success': ['b'],
+               'on-error': ['c']}, 'b': T(), 'c': T()},
+        input={'xs': ['i0', 'i1']})
+    P['items2_conc1'] = direct(
+        {'a': {'with-items': 'i in <% $.xs %>', 'concurrency': 1,
+               'on-success': ['b']}, 'b': T()},
+        input={'xs': ['i0', 'i1']})
+    leaf = direct({'s1': T(key='s1', **{'on-success': ['s2']}),
+                   's2': T(key='s2')})
+    P['subwf'] = direct(
+        {'a': T(workflow='sub', **{'on-success': ['b'], 'on-error': ['c']}),
+         'b': T(), 'c': T()}, subs={'sub': leaf})
     return P
 
 
@@ -102,16 +123,34 @@ def scenarios(tier):
         assigns.append({k: ['E' if k == keys[0] else 'S'] for k in keys})
         if len(keys) > 1:
             assigns.append({k: ['E' if k == keys[1] else 'S'] for k in keys})
-        if pname == 'retry1':
+        if pname in ('retry1', 'retry_delay'):
             assigns = [{'a': ['E', 'S'], 'b': ['S']},
                        {'a': ['E', 'E'], 'b': ['S']}]
+        if pname.startswith('items2'):
+            assigns = [{'i0': ['S'], 'i1': ['S'], 'b': ['S'], 'c': ['S']},
+                       {'i0': ['E'], 'i1': ['S'], 'b': ['S'], 'c': ['S']}]
+        if pname == 'subwf':
+            assigns = [{'s1': ['S'], 's2': ['S'], 'b': ['S'], 'c': ['S']},
+                       {'s1': ['S'], 's2': ['E'], 'b': ['S'], 'c': ['S']}]
+        kw = {}
+        if pname in ('subwf',) or pname.startswith('items2'):
+            kw['compare_ctx'] = False
         for res in assigns:
             tag = ''.join(res[k][0] for k in sorted(res))
             scn = PauseScenario(
                 '%s/pause_resume/%s' % (pname, tag), prog, results=res,
                 menu=['pause', 'resume'], max_cmds=2,
-                sequences=[['pause', 'resume']])
+                sequences=[['pause', 'resume']], **kw)
             jobs.append((scn, 0 if quick else 1, 40 if quick else 1200, 1))
+            if pname == 'subwf':
+                # the child is paused and resumed on its own
+                scn = PauseScenario(
+                    '%s/pause_resume_child/%s' % (pname, tag), prog,
+                    results=res, menu=['pause_sub', 'resume_sub'],
+                    max_cmds=2, sequences=[['pause_sub', 'resume_sub']],
+                    **kw)
+                jobs.append((scn, 0 if quick else 1,
+                             40 if quick else 1200, 1))
     return jobs
 
 
